@@ -325,8 +325,7 @@ def rule_r3(ctx, rid="C06.R3"):
 CODES = {"BadRequest": 400, "RequestHeaderFieldsTooLarge": 431, "RequestEntityTooLarge": 413, "ServerNotImplemented": 501, "InternalServerError": 500}
 
 
-def rule_r4(ctx):
-    rid = "C06.R4"
+def rule_r4(ctx, rid="C06.R4"):
     ctx.r.rule(rid, "refusal pairing and codes: every parser error store is followed by completed=True on all paths; receiver errors are relayed before completed is consulted; error classes carry the named status codes")
     p = ctx.p
     for cname, code in CODES.items():
